@@ -211,7 +211,9 @@ const BASE_CONCAT_PACKED: u64 = 14 << 56;
 const BASE_CONCAT_FSB: u64 = 15 << 56;
 const BASE_EMPTY: u64 = 16 << 56;
 
-fn replay(case: &Value) -> ! {
+/// Re-executes the unit named by a replay case verbosely; for the small sub-engines without a
+/// per-unit replay it returns the `--only` filter under which the normal flow re-runs them.
+fn replay(case: &Value) -> Option<String> {
     println!("replay case: {case}");
     let b = bounds(case["tier"].as_str() != Some("thorough"));
     let sub = case["sub"].as_str().unwrap_or("").to_string();
@@ -255,9 +257,18 @@ fn replay(case: &Value) -> ! {
             let coi = combos.iter().position(|c| *c == want).unwrap_or(0);
             substr::run_by_char(&fams[0].table, &fams[0].cols, combos[coi], coi, &mut st, 0);
         }
-        _ => {
-            println!("replay outcome: sub-engine {sub:?} is small; re-run `check C20 --only={sub}` (the case object above names the exact call and inputs)");
-            std::process::exit(1);
+        s => {
+            let only = if s.starts_with("concat") {
+                "concat"
+            } else if s == "empty" {
+                "empty"
+            } else if s.starts_with("regexp") {
+                "regexp"
+            } else {
+                "substring"
+            };
+            println!("replay: sub-engine {s:?} has no per-unit replay; re-running the whole `{only}` sub-engine");
+            return Some(only.to_string());
         }
     }
     let bad = !st.violations.is_empty();
@@ -272,12 +283,13 @@ fn replay(case: &Value) -> ! {
 }
 
 pub fn run(ctx: &Ctx) -> ! {
-    if let Some(case) = vcore::load_replay(ctx) {
-        replay(&case);
-    }
-    let b = bounds(ctx.quick());
+    let replay_only = vcore::load_replay(ctx).map(|case| replay(&case).expect("replay() exits unless it returns a filter"));
+    let b = match &replay_only {
+        Some(_) => bounds(vcore::load_replay(ctx).is_none_or(|c| c["tier"].as_str() != Some("thorough"))),
+        None => bounds(ctx.quick()),
+    };
     let mut st = Stats::new();
-    let only = ctx.extra_args.iter().find_map(|a| a.strip_prefix("--only=").map(|s| s.to_string()));
+    let only = replay_only.or_else(|| ctx.extra_args.iter().find_map(|a| a.strip_prefix("--only=").map(|s| s.to_string())));
     let want = |s: &str| only.as_deref().is_none_or(|o| o == s);
     let lap = |what: &str| eprintln!("[c20] {what} at {:.1}s", ctx.start.elapsed().as_secs_f64());
 
